@@ -225,7 +225,7 @@ def oracle(line, ans):
         if d.get("events") != srt(events):
             return "executed closures [%s], expected [%s]" % (d.get("events"), srt(events))
         st = d.get("status")
-        want = ("failed", "error") if bad else (("success",) if ran else ("skipped",))
+        want = ("failed", "error") if bad else ("success", "skipped")
         if st not in want:
             return "root status %s but %s" % (st, "a closure failed" if bad else "nothing failed")
         statuses = dict((r.split(":")[0], r.split(":")[1]) for r in d.get("reports", "").split(",") if r)
